@@ -24,7 +24,7 @@ def gen_value(rng, kinds):
     if k == 'float':
         return 0.0 if rng.random() < 0.1 else rng.choice([0.5, 1.25, -2.5, 7.125, 3.5, -0.75, 12.375]) + rng.randint(-3, 3)
     if k == 'text':
-        return rng.choice(['x', 'abc', 'N/A', 'total'])
+        return rng.choice(['x', 'abc', 'N/A', 'total', '#1024', '#A17', '#TODO', '# 7'])          # labels that begin with # are texts, not error values
     if k == 'numtext':
         return rng.choice(['5', '12', '3.5', '007'])
     if k == 'bool':
